@@ -237,6 +237,8 @@ CORPUS["C06"] = [
 ]
 
 CORPUS["C07"] = [
+    B("tau stage rebinds its angle argument to an array view of itself", (TAUS, "        tauExitProb = self.tau_exit_prob(betas, log_e_nu)\n", "        betas = np.asarray(betas)\n        tauExitProb = self.tau_exit_prob(betas, log_e_nu)\n")),
+    M("tau stage floors the caller's angles in place", (TAUS, "        tauExitProb = self.tau_exit_prob(betas, log_e_nu)\n", "        np.maximum(betas, 1e-3, out=betas)\n        tauExitProb = self.tau_exit_prob(betas, log_e_nu)\n")),
     M("1e-3 -> 1e-2", (EAS, "lenDec = 1e-3 * tDec", "lenDec = 1e-2 * tDec")),
     M("shower energy / 1e9", (TAUS, "tauEnergy / 1e8", "tauEnergy / 1e9")),
     M("minus sign dropped", (EAS, "tDec = -tauLorentz", "tDec = tauLorentz")),
@@ -369,6 +371,8 @@ CORPUS["C13"] = [
 ]
 
 CORPUS["C14"] = [
+    B("tau stage rebinds its angle argument to an array view of itself", (TAUS, "        tauExitProb = self.tau_exit_prob(betas, log_e_nu)\n", "        betas = np.asarray(betas)\n        tauExitProb = self.tau_exit_prob(betas, log_e_nu)\n")),
+    M("tau stage floors the caller's angles in place", (TAUS, "        tauExitProb = self.tau_exit_prob(betas, log_e_nu)\n", "        np.maximum(betas, 1e-3, out=betas)\n        tauExitProb = self.tau_exit_prob(betas, log_e_nu)\n")),
     M("one column name missing", (TAUS, '        "tauBeta", "tauLorentz", "tauEnergy", "showerEnergy", "tauExitProb"\n    )\n    def __call__', '        "tauBeta", "tauLorentz", "tauEnergy", "showerEnergy"\n    )\n    def __call__')),
     M("stage without store=", (COMP, "altDec, lenDec = eas.altDec(beta_tr, tauBeta, tauLorentz, store=sw)", "altDec, lenDec = eas.altDec(beta_tr, tauBeta, tauLorentz)")),
     M("altDec / lenDec swapped at the radio call", (COMP, "            beta_tr, altDec, lenDec, thetaArr, pathLenArr, showerEnergy, store=sw", "            beta_tr, lenDec, altDec, thetaArr, pathLenArr, showerEnergy, store=sw")),
